@@ -15,6 +15,7 @@
 #include <glm/glm.hpp>
 #include <glm/gtc/quaternion.hpp>
 #include <array>
+#include <limits>
 #if defined(GLM_FORCE_INTRINSICS)
 #	include <glm/gtc/type_aligned.hpp>
 #endif
@@ -27,7 +28,26 @@ struct In { double t[16]; u32 id; u32 pad; };
 
 // harness: value of source element type U made from a tag, staying inside the domain of static_cast<T>(U):
 // no negative value into an unsigned source type, no negative floating value into an unsigned destination type
+// in.pad==1 ("wide" tag sets): the tag is a fraction in (-1,1) that is scaled to the whole range of the source type U that static_cast<T>(U)
+// is defined on (all of U for integer sources; |value| below the range of T for floating sources converted to an integer T; up to 1e30 with
+// a full double mantissa for floating -> floating), so that sign handling, values >= 2^31, truncation and rounding of the conversion are exercised
+static thread_local u32 g_wide=0;
+template<class T,class U> static U mk2w(double f){
+	const double a=std::fabs(f);
+	if constexpr(std::is_same<U,bool>::value) return a>=0.5;
+	else if constexpr(std::is_integral<U>::value){
+		if constexpr(std::is_unsigned<U>::value) return (U)(a*((double)std::numeric_limits<U>::max()+1.0)*0.99999999);   // half of the values >= 2^(bits-1)
+		else return (U)(f*(double)std::numeric_limits<U>::max());
+	}
+	else if constexpr(std::is_same<T,bool>::value) return a<0.25? (U)0 : (U)(f*3.0);
+	else if constexpr(std::is_integral<T>::value){
+		const double lim=(double)std::numeric_limits<T>::max()*0.999;    // truncation stays inside the range of T
+		return std::is_unsigned<T>::value? (U)(a*lim) : (U)(f*lim);
+	}
+	else { const int k=(int)(a*64.0)%3; return (U)(f*(k==0? 1.0 : k==1? 1e30 : 1e-30)); }
+}
 template<class T,class U> static U mk2(double tag){
+	if(g_wide) return mk2w<T,U>(tag);
 	if constexpr(std::is_same<U,bool>::value) return (((long long)std::fabs(tag))&1)!=0;
 	else if constexpr(std::is_unsigned<U>::value) return (U)std::fabs(tag);
 	else if constexpr(std::is_floating_point<U>::value && std::is_unsigned<T>::value && !std::is_same<T,bool>::value) return (U)std::fabs(tag);
@@ -38,6 +58,12 @@ template<class T> static std::string showv(const T* p,int n){ std::string s="(";
 #define C17_S(T,U,OFF) mk2<T,U >(in.t[OFF])
 #define C17_X(T,U,OFF) static_cast<T >(mk2<T,U >(in.t[OFF]))
 #define C17_ZERO(T) static_cast<T >(0)
+// four-scalar quaternion constructor: tag index of the argument that names component i (0=x,1=y,2=z,3=w)
+#ifdef GLM_FORCE_QUAT_DATA_XYZW
+#	define C17_QARG(i) (i)
+#else
+#	define C17_QARG(i) (((i)+1)&3)
+#endif
 template<class T,class U,class V> static void fillv(V& a,int L,const double* t){ U tmp[4]; for(int j=0;j<L;j++) tmp[j]=mk2<T,U>(t[j]); memset((void*)&a,0,sizeof a); memcpy((void*)&a,tmp,(size_t)L*sizeof(U)); }
 #define C17_V(A,L,T,U,OFF) fillv<T,U >(A,L,in.t+OFF)
 template<class T,class U,class M> static void fillm(M& a,int C,int R,const double* t){
@@ -81,18 +107,24 @@ template<class Q,class T> static void checkq(vf::Ctx& c,const In& in,const Q& go
 
 VF_OP2(C17_OPNAME, In, IN_FMT){
 	if(in.id>=C17_NCASES || (int)(in.id%C17_NPARTS)!=C17_PART){ c.fail("harness:case-not-in-this-unit","",""); return; }
-	c17_dispatch(in,c);
+	g_wide= in.pad==1; if(g_wide) for(int i=0;i<16;i++) if(!(std::fabs(in.t[i])<1.0)){ c.cls("ignored:wide-tag-not-a-fraction"); g_wide=0; return; }
+	c.cls(g_wide? "wide-range-tags":"small-tags");
+	c17_dispatch(in,c); g_wide=0;
 }
 
 // tag assignments: 0 primes; 1 alternating sign + fractional part; 2 distinct values drawn from the seed; 3 zero/one pattern from the seed
-static std::vector<std::array<double,16> > tagsets(){
-	std::vector<std::array<double,16> > v; std::array<double,16> a;
+struct TagSet { std::array<double,16> t; u32 wide; };
+static std::vector<TagSet> tagsets(){
+	std::vector<TagSet> v; std::array<double,16> a;
 	static const double pr[16]={2,3,5,7,11,13,17,19,23,29,31,37,41,43,47,53};
-	for(int i=0;i<16;i++) a[i]=pr[i]; v.push_back(a);
-	for(int i=0;i<16;i++){ double x=(double)(i+1)+0.25*(double)(1+i%3); a[i]=(i&1)? x:-x; } v.push_back(a);
+	for(int i=0;i<16;i++) a[i]=pr[i]; v.push_back({a,0});
+	for(int i=0;i<16;i++){ double x=(double)(i+1)+0.25*(double)(1+i%3); a[i]=(i&1)? x:-x; } v.push_back({a,0});
 	vf::Rng g(vf::cfg().seed*0x9e3779b97f4a7c15ULL^0xC17C);
-	int used[128]={0}; for(int i=0;i<16;i++){ int m; do{ m=1+(int)g.below(60);}while(used[m]); used[m]=1; double x=(double)m+0.25*(double)g.below(4); a[i]=g.coin()? -x:x; } v.push_back(a);
-	for(int i=0;i<16;i++) a[i]=(double)g.below(2); a[g.below(16)]=1.0; v.push_back(a);
+	int used[128]={0}; for(int i=0;i<16;i++){ int m; do{ m=1+(int)g.below(60);}while(used[m]); used[m]=1; double x=(double)m+0.25*(double)g.below(4); a[i]=g.coin()? -x:x; } v.push_back({a,0});
+	for(int i=0;i<16;i++) a[i]=(double)g.below(2); a[g.below(16)]=1.0; v.push_back({a,0});
+	// wide-range sets: fractions in (-1,1), scaled per source type by mk2w; the second one has every magnitude >= 0.5 (unsigned sources >= 2^31)
+	for(int i=0;i<16;i++){ double x=(double)(g.next()>>11)*(1.0/9007199254740992.0); a[i]=g.coin()? -x:x; } v.push_back({a,1});
+	for(int i=0;i<16;i++){ double x=0.5+0.5*(double)(g.next()>>11)*(1.0/9007199254740992.0); if(x>=1.0) x=0.75; a[i]=g.coin()? -x:x; } v.push_back({a,1});
 	return v;
 }
 
@@ -102,6 +134,6 @@ static void workload(){
 	auto ts=tagsets();
 	vf::note("cases_total",std::to_string(C17_NCASES)); vf::note("cases_in_unit",std::to_string(ids.size())); vf::note("generated_from",C17_STR(C17_INC));
 	u64 total=(u64)ids.size()*ts.size();
-	vf::sweep("ctor",total,32,[&](vf::Ctx& c,u64 lo,u64 hi){ for(u64 i=lo;i<hi;i++){ In in; memcpy(in.t,ts[i%ts.size()].data(),sizeof in.t); in.id=ids[i/ts.size()]; in.pad=0; vf::run(c,C17_OPNAME,in); } });
+	vf::sweep("ctor",total,32,[&](vf::Ctx& c,u64 lo,u64 hi){ for(u64 i=lo;i<hi;i++){ In in; memcpy(in.t,ts[i%ts.size()].t.data(),sizeof in.t); in.id=ids[i/ts.size()]; in.pad=ts[i%ts.size()].wide; vf::run(c,C17_OPNAME,in); } });
 }
 VF_MAIN("C17_ctor")
